@@ -45,6 +45,7 @@ THEOREMS = [
     "Lena.C01.fcSpec_total",
     "Lena.C01.sliceS_ofList",
     "Lena.C01.reverseS_ofList",
+    "Lena.C01.run_callables",
 ]
 TRUSTED = [
     "Lean 4.33.0 kernel; axioms limited to propext, Classical.choice, Quot.sound (audited by #print axioms on every run)",
